@@ -921,7 +921,28 @@ func main() {
 	corpus := flag.String("corpus", "", "directory of scenario files that run first")
 	kinds := flag.String("kinds", "deps,single,api,shutdown", "scenario kinds to generate")
 	flag.IntVar(&politePct, "polite", 60, "percentage of scenarios scheduled politely (outside the known windows)")
+	project := flag.String("project", "", "JSON file with recorded results (a list, or a replay object with key histories): re-project them to cases_SUP.v without running anything")
 	flag.Parse()
+	if *project != "" {
+		data, err := os.ReadFile(*project)
+		if err != nil {
+			fmt.Fprintln(os.Stderr, err)
+			os.Exit(2)
+		}
+		var rs []*Result
+		if json.Unmarshal(data, &rs) != nil {
+			var obj struct {
+				Histories []*Result `json:"histories"`
+			}
+			if err := json.Unmarshal(data, &obj); err != nil {
+				fmt.Fprintln(os.Stderr, *project, err)
+				os.Exit(2)
+			}
+			rs = obj.Histories
+		}
+		emit(rs, *out)
+		return
+	}
 	zerolog.SetGlobalLevel(zerolog.Disabled)
 	if *one {
 		var sc Scenario
@@ -1004,6 +1025,12 @@ func main() {
 		}(i, sc)
 	}
 	wg.Wait()
+	emit(results, *out)
+}
+
+// emit writes cases_SUP.v / cases_SUP.json for the recorded results and prints the statistics line.
+func emit(results []*Result, outDir string) {
+	out := &outDir
 	var sb strings.Builder
 	sb.WriteString("From Coq Require Import List ZArith NArith.\nFrom PC.Base Require Import Assoc.\nFrom PC.Sup Require Import Model Check.\nImport ListNotations.\n")
 	for i, r := range results {
